@@ -25,6 +25,7 @@ type Step struct {
 	Lim      int               `json:"lim,omitempty"`
 	MemLim   int64             `json:"memlim,omitempty"`
 	MemReq   int64             `json:"memreq,omitempty"`
+	Swap     int64             `json:"swap,omitempty"` // memory+swap limit of the container spec (swap-enabled node)
 	InitCpus string            `json:"initcpus,omitempty"`
 	InitMems string            `json:"initmems,omitempty"`
 	Same     bool              `json:"same,omitempty"` // update with identical resources
@@ -353,7 +354,7 @@ func (r *Runner) Do(s *Step) *Reply {
 		c := r.M.Ctrs[s.Ctr]
 		if c == nil {
 			c = &MCtr{Key: s.Ctr, ID: r.newCtrID(), Pod: s.Pod, Name: s.Name, ReqMilli: s.Req, LimMilli: s.Lim,
-				MemLim: s.MemLim, MemReq: s.MemReq, InitCpus: s.InitCpus, InitMems: s.InitMems}
+				MemLim: s.MemLim, MemReq: s.MemReq, Swap: s.Swap, InitCpus: s.InitCpus, InitMems: s.InitMems}
 			qos := "Guaranteed"
 			if p != nil {
 				qos = p.QoS
